@@ -1,4 +1,5 @@
 """C14 - nice() only widens a domain, by < 2 tick steps, to round end points."""
+import itertools
 import math
 from fractions import Fraction
 from datetime import datetime, timedelta
@@ -37,7 +38,7 @@ def judge_linear(a, b, m, acc=None):
             s = LinearScale().domain([a, b])
             s.nice(m) if m is not None else s.nice()
             na, nb = [float(v) for v in s.domain()]
-            tk = [float(t) for t in LinearScale().domain([na, nb]).ticks(m)]
+            tk = [float(t) for t in itertools.islice(LinearScale().domain([na, nb]).ticks(m), 10001)]
     except Hang:
         return "HANG", "nice(%r) on [%r, %r] did not return" % (m, a, b)
     except Exception as e:
